@@ -85,6 +85,16 @@ CHECKS["C03"] = dict(level="fault_enumeration", engine="E1+crash images", ref="5
    technique="crash-point enumeration: the lease database is copied at every state of the explicit-state graph (and in sweeps over chaddr lengths 0..16 and hostile hostnames) and the real plugin is started on each image",
    text="Every state reached by the C02 graph is a crash point: the sqlite file as it is on disk is copied and the real setupRange runs on the copy; it must succeed and restore exactly the client-to-address bindings replied so far (none lost, changed, duplicated or invented; allocator marks = bindings; one row per client), with a stored expiry not earlier than the end of the lease last promised (1 s resolution, one-sided clock comparison). Sweeps: chaddr lengths 0..16 plus numeric-looking one-byte addresses, 12 hostnames (numeric-looking, NUL, 0xff, quotes, 255 bytes), each followed by a restart.",
    note=LEASE_NOTE)
+
+CHECKS["C16"] = dict(level="model_checking", engine="E2+E4", ref="5/C16",
+   technique="stateless model checking of the implementation: cooperative scheduler replacing sync (overlay build), Yield before every statement, all schedules up to a preemption bound through the real Serve loop; serialisability against the implementation's own sequential runs; separate free-running -race pass",
+   text="For each scenario (same client twice, two/three clients with fewer free addresses or blocks, static lookup during a lease-file reload, two different datagrams with forced receive-buffer reuse; DHCPv4 chain server_id+file+range+dns and DHCPv6 chain server_id+file+prefix+dns) every schedule with at most 2 preemptions (thorough 3; one less when a third/fourth thread exists) at statement granularity is executed on the real code through the real Serve loop and sync.Pool replacement; the outcome (replies per transaction id + final lease state) must equal that of some sequential order computed with the implementation itself; per-reply oracles (reply belongs to its request, server id, lifetimes), lease-table/bitmap consistency, deadlock and lock-left-held detection run on every schedule. The same scenario bodies (plus dual-stack file instances with their real fsnotify watchers) then run free under the Go race detector (200 / 2000 rounds).",
+   note="Scheduling points exist only in the instrumented coredhcp packages (server, range, prefix, file, bitmap allocators); logrus, database/sql, sqlite and the DHCP codec run atomically between points. The race pass is a detector over the executions that ran, not an enumeration. At most 3 concurrent datagrams.")
+for k in ("C02","C04","C08"):
+    CHECKS[k]["engine"] = "E1+E2"
+CHECKS["C04"]["technique"] += "; plus E2: all schedules up to 2/3 preemptions of 2-3 threads x 1-2 ops on a 2-block pool, serial-order oracle and porcupine linearizability check"
+CHECKS["C02"]["technique"] += "; plus E2: C16's DHCPv4 scenarios (same client twice, two/three clients at exhaustion) under all schedules up to the preemption bound"
+CHECKS["C08"]["technique"] += "; plus E2: C16's DHCPv6 prefix scenarios under all schedules up to the preemption bound"
 ALL = ["C%02d" % i for i in range(1, 21)]
 NA_REASON = "check not built yet in this session (planned, see DESIGN.md section 5); will be claimed once its machinery exists"
 m = {
@@ -99,7 +109,7 @@ m = {
  },
  "engines": [
   {"name": "E1 explicit-state BFS over real handlers", "path": "mc/explore", "serves_properties": ["C02","C03","C04","C05","C06","C07","C08","C09","C10"], "kind_free_text": "explicit-state model checking where every transition is an execution of the real code on a fresh instance (replay of the shortest path + 1 op); state key = hook dump + observer ghost"},
-  {"name": "E2 cooperative scheduler + preemption-bounded DFS", "path": "mc/sched + mc/verifsched + mc/cmd/instr", "serves_properties": [], "kind_free_text": "stateless model checking of the implementation: sync replaced by a shim through go build -overlay, Yield() injected before every statement, all schedules up to a preemption bound"},
+  {"name": "E2 cooperative scheduler + preemption-bounded DFS", "path": "mc/sched + mc/verifsched + mc/cmd/instr", "serves_properties": ["C02","C04","C08","C16"], "kind_free_text": "stateless model checking of the implementation: sync replaced by a shim through go build -overlay, Yield() injected before every statement, all schedules up to a preemption bound"},
   {"name": "E3 bounded-exhaustive enumerator vs reference model", "path": "mc/checks/*", "serves_properties": ["C10","C11","C12","C13","C14","C15","C17","C18","C19","C20"], "kind_free_text": "complete cross product of small per-dimension alphabets executed on the real code and compared with a reference written from the property text"},
  ],
  "checks": [],
